@@ -19,6 +19,12 @@ files exist and what they contain).  A case line is
     (the probe materialises file/tmpl/pair facts as real files in its scratch directory and ignores the others: the real
     code computes those itself, so a wrong entry of the tables below shows up as a model/implementation mismatch)
 
+    X:<state>                state of the caller's ApplicationContext when core.Start is entered (default fresh):
+        fresh   new context, ConfigurationValid = false
+        preset  new context constructed with ConfigurationValid = true
+        reuse   the context an earlier core.Start returned from; that earlier call's configuration is given by the same
+                tokens with the prefix P (Ps:<key>:<hex>, PF:<kind>:...), and the output line ends in pre=<rc>/<valid>
+
 String values that start with "@/" name files of the probe's scratch directory.
 """
 
@@ -271,9 +277,8 @@ BASES = {
 E = []
 
 
-def edit(eid, kind, inv, on, ops, cite, what, gate=None):
-    """gate: known-finding key; the edit is only generated once that key is registered in known_findings.json"""
-    E.append({"id": eid, "kind": kind, "inv": inv, "on": on, "ops": ops, "cite": cite, "what": what, "gate": gate})
+def edit(eid, kind, inv, on, ops, cite, what):
+    E.append({"id": eid, "kind": kind, "inv": inv, "on": on, "ops": ops, "cite": cite, "what": what})
 
 
 # zookeeper -----------------------------------------------------------------------------------------------------
@@ -503,15 +508,133 @@ edit("consumer-zk-denylist-bad", "pattern", True, ["kafka"], [("s", "consumer.z1
 edit("consumer-allowlist-good", "preserving", False, ["kafka"], [("s", "consumer.k1.group-allowlist", "^ok")],
      "core/internal/consumer/kafka_client.go:125-133", "kafka consumer group-allowlist that compiles")
 
-# viper structure (outside the model: names with dots).  viper.IsSet("cluster." + name) is true for "c1.servers".
+# references by a dotted name: "c1.servers" is a set viper KEY but not a cluster; "p1.tls" is a key, not a profile.
+# (viper.IsSet("cluster." + name) accepted these until the `fix:` recorded in findings/C19.json.)
 edit("consumer-dotted-cluster", "reference", True, ["kafka"], [("s", "consumer.k1.cluster", "c1.servers")],
      "core/internal/consumer/coordinator.go:87-89; core/internal/consumer/kafka_client.go:97-100",
-     "consumer names the cluster \"c1.servers\": no such cluster, but the key cluster.c1.servers is set",
-     gate="C19:dotted-reference")
+     "kafka consumer names the cluster \"c1.servers\": no such cluster, but the key cluster.c1.servers is set")
+edit("consumer-zk-dotted-cluster", "reference", True, ["kafka"], [("s", "consumer.z1.cluster", "c1.class-name")],
+     "core/internal/consumer/coordinator.go:87-89",
+     "kafka_zk consumer names the cluster \"c1.class-name\": no such cluster, but the key is set")
 edit("cluster-dotted-profile", "reference", True, ["kafka"], [("s", "cluster.c1.client-profile", "p1.tls")],
      "core/internal/helpers/sarama.go:70-72",
-     "cluster names the client-profile \"p1.tls\": no such profile, but the key client-profile.p1.tls is set",
-     gate="C19:dotted-reference")
+     "cluster names the client-profile \"p1.tls\": no such profile, but the key client-profile.p1.tls is set")
+edit("consumer-dotted-profile", "reference", True, ["kafka"], [("s", "consumer.k1.client-profile", "p1.client-id")],
+     "core/internal/helpers/sarama.go:70-72",
+     "kafka consumer names the client-profile \"p1.client-id\": no such profile, but the key is set")
+edit("consumer-cluster-empty", "reference", True, ["kafka"], [("s", "consumer.k1.cluster", "")],
+     "core/internal/consumer/coordinator.go:87-89", "kafka consumer with cluster set to the empty string")
+
+# server lists with several entries, exactly one of them malformed (first / middle / last) ----------------------------
+_GOOD3 = ["127.0.0.1:1", "[::1]:1", "zk1.example.com:2181"]
+_LISTS = [  # (id prefix, key, focused base, cite, bad literals for first / middle / last)
+    ("zk-servers", "zookeeper.servers", "notify", "core/internal/zookeeper/coordinator.go:65-66",
+     ("nocolon", "zk1.example.com:http", ":2181")),
+    ("cluster-servers", "cluster.c1.servers", "kafka", "core/internal/cluster/kafka_cluster.go:71-72",
+     ("broker1", "256.1.1.1:9092", "-bad-.example.com:2181")),
+    ("consumer-servers", "consumer.k1.servers", "kafka", "core/internal/consumer/kafka_client.go:108-109",
+     (":2181", "nocolon", "zk1.example.com:http")),
+    ("consumer-zk-servers", "consumer.z1.servers", "kafka", "core/internal/consumer/kafka_zk_client.go:78-79",
+     ("256.1.1.1:9092", "broker1", "nocolon")),
+]
+for _pfx, _key, _base, _cite, _bad in _LISTS:
+    for _pos, _where in enumerate(("first", "middle", "last")):
+        _l = list(_GOOD3)
+        _l[_pos] = _bad[_pos]
+        edit("%s-bad-%s" % (_pfx, _where), "server-list", True, [_base], [("l", _key, _l)],
+             _cite + "; core/internal/helpers/validation.go:103-111",
+             "%s with three entries, only the %s one malformed (%s)" % (_key, _where, _bad[_pos]))
+edit("cluster-servers-three", "preserving", False, ["kafka"], [("l", "cluster.c1.servers", list(_GOOD3))],
+     "core/internal/helpers/validation.go:103-111", "three well-formed cluster servers")
+edit("consumer-zk-servers-three", "preserving", False, ["kafka"], [("l", "consumer.z1.servers", list(_GOOD3))],
+     "core/internal/helpers/validation.go:103-111", "three well-formed kafka_zk consumer servers")
+
+# both patterns malformed; the pattern of the other kind on each module class -----------------------------------------
+edit("storage-both-lists-bad", "pattern", True, ["core", "notify", "kafka"],
+     [("s", "storage.s1.class-name", "inmemory"), ("s", "storage.s1.group-allowlist", "("), ("s", "storage.s1.group-denylist", "[a-")],
+     "core/internal/storage/inmemory.go:144-162", "storage allowlist and denylist both do not compile")
+edit("notifier-both-lists-bad", "pattern", True, ["notify"],
+     [("s", "notifier.n1.group-allowlist", "*"), ("s", "notifier.n1.group-denylist", "a{2,1}")],
+     "core/internal/notifier/coordinator.go:196-217", "notifier allowlist and denylist both do not compile")
+edit("consumer-both-lists-bad", "pattern", True, ["kafka"],
+     [("s", "consumer.k1.group-allowlist", "("), ("s", "consumer.k1.group-denylist", "[a-")],
+     "core/internal/consumer/kafka_client.go:125-143", "kafka consumer allowlist and denylist both do not compile")
+edit("consumer-zk-both-lists-bad", "pattern", True, ["kafka"],
+     [("s", "consumer.z1.group-allowlist", "a{2,1}"), ("s", "consumer.z1.group-denylist", "*")],
+     "core/internal/consumer/kafka_zk_client.go:98-116", "kafka_zk consumer allowlist and denylist both do not compile")
+edit("consumer-denylist-bad", "pattern", True, ["kafka"], [("s", "consumer.k1.group-denylist", "a{2,1}")],
+     "core/internal/consumer/kafka_client.go:135-143", "kafka consumer group-denylist does not compile")
+edit("consumer-zk-allowlist-bad", "pattern", True, ["kafka"], [("s", "consumer.z1.group-allowlist", "(")],
+     "core/internal/consumer/kafka_zk_client.go:98-106", "kafka_zk consumer group-allowlist does not compile")
+edit("notifier-null-denylist-bad", "pattern", True, ["notify"], [("s", "notifier.n3.group-denylist", "[a-")],
+     "core/internal/notifier/coordinator.go:208-217", "null notifier group-denylist does not compile")
+
+# legacy keys: each of the two keys on each module kind ----------------------------------------------------------------
+edit("consumer-legacy-whitelist", "legacy-key", True, ["kafka"], [("s", "consumer.k1.group-whitelist", "^ok")],
+     "core/internal/consumer/kafka_client.go:119-123", "legacy group-whitelist key in a kafka consumer")
+edit("consumer-zk-legacy-blacklist", "legacy-key", True, ["kafka"], [("s", "consumer.z1.group-blacklist", "^x")],
+     "core/internal/consumer/kafka_zk_client.go:92-96", "legacy group-blacklist key in a kafka_zk consumer")
+edit("notifier-email-legacy-blacklist", "legacy-key", True, ["notify"], [("s", "notifier.n2.group-blacklist", "^x")],
+     "core/internal/notifier/coordinator.go:189-193", "legacy group-blacklist key in an email notifier")
+edit("notifier-null-legacy-whitelist", "legacy-key", True, ["notify"], [("s", "notifier.n3.group-whitelist", "^ok")],
+     "core/internal/notifier/coordinator.go:189-193", "legacy group-whitelist key in a null notifier")
+edit("storage-legacy-both", "legacy-key", True, ["core", "notify", "kafka"],
+     [("s", "storage.s1.class-name", "inmemory"), ("s", "storage.s1.group-whitelist", "^ok"), ("s", "storage.s1.group-blacklist", "^x")],
+     "core/internal/storage/inmemory.go:139-142", "both legacy keys in storage")
+
+# a second module --------------------------------------------------------------------------------------------------
+edit("storage-extra-module", "module-count", None, ["core", "notify", "kafka"], [("s", "storage.sx.class-name", "inmemory")],
+     "core/internal/storage/coordinator.go:87-98",
+     "one more storage module: the second one where the base names one, the only one where the base relies on the default")
+edit("evaluator-extra-module", "module-count", None, ["core", "notify", "kafka"], [("s", "evaluator.ex.class-name", "caching")],
+     "core/internal/evaluator/coordinator.go:86-98",
+     "one more evaluator module: the second one where the base names one, the only one where the base relies on the default")
+edit("storage-second-unknown-class", "module-count", True, ["core", "notify", "kafka"],
+     [("s", "storage.s1.class-name", "inmemory"), ("s", "storage.s2.class-name", "memcached")],
+     "core/internal/storage/coordinator.go:72-73,87-98", "two storage modules, the second of an unknown class")
+edit("evaluator-three-modules", "module-count", True, ["core", "notify", "kafka"],
+     [("s", "evaluator.e1.class-name", "caching"), ("s", "evaluator.e2.class-name", "caching"), ("s", "evaluator.e3.class-name", "caching")],
+     "core/internal/evaluator/coordinator.go:86-98", "three evaluator modules")
+edit("cluster-second-malformed", "server-list", True, ["kafka"],
+     [("s", "cluster.c2.class-name", "kafka"), ("l", "cluster.c2.servers", ["kafka_broker:9092", "broker1"])],
+     "core/internal/cluster/kafka_cluster.go:71-72", "a second cluster whose server list has a malformed entry (the first cluster is fine)")
+edit("cluster-second-no-servers", "server-list", True, ["kafka"], [("s", "cluster.c2.class-name", "kafka")],
+     "core/internal/cluster/kafka_cluster.go:68-70", "a second cluster without servers")
+edit("consumer-second-unknown-cluster", "reference", True, ["kafka"],
+     [("s", "consumer.k2.class-name", "kafka"), ("s", "consumer.k2.cluster", "nosuch"), ("l", "consumer.k2.servers", ["kafka_broker:9092"])],
+     "core/internal/consumer/coordinator.go:87-89", "a second kafka consumer that names an unknown cluster")
+edit("consumer-zk-second-unknown-cluster", "reference", True, ["kafka"],
+     [("s", "consumer.z2.class-name", "kafka_zk"), ("s", "consumer.z2.cluster", "c2"), ("l", "consumer.z2.servers", ["zk1.example.com:2181"])],
+     "core/internal/consumer/coordinator.go:87-89", "a second kafka_zk consumer that names the unknown cluster c2")
+edit("consumer-on-second-cluster", "preserving", False, ["kafka"],
+     [("s", "cluster.c2.class-name", "kafka"), ("l", "cluster.c2.servers", ["kafka_broker:9092"]), ("s", "consumer.z1.cluster", "c2")],
+     "core/internal/consumer/coordinator.go:87-89", "a second cluster, and the kafka_zk consumer belongs to it")
+edit("notifier-second-http-no-url", "url", True, ["notify"],
+     [("s", "notifier.n4.class-name", "http"), ("s", "notifier.n4.template-open", "@/open.tmpl")],
+     "core/internal/notifier/http.go:64-68", "a second http notifier without url-open")
+
+# requirements that bind for one module class only ------------------------------------------------------------------
+edit("notifier-email-send-close-no-template", "template", True, ["notify"], [("b", "notifier.n2.send-close", True)],
+     "core/internal/notifier/coordinator.go:232-238", "email notifier with send-close and no template-close")
+edit("notifier-null-send-close-no-template", "template", True, ["notify"], [("b", "notifier.n3.send-close", True)],
+     "core/internal/notifier/coordinator.go:232-238", "null notifier with send-close and no template-close")
+edit("notifier-email-send-close", "preserving", False, ["notify"],
+     [("b", "notifier.n2.send-close", True), ("s", "notifier.n2.template-close", "@/close.tmpl")],
+     "core/internal/notifier/coordinator.go:232-238; core/internal/notifier/http.go:73-79",
+     "email notifier with send-close and template-close: url-close is an http requirement only")
+edit("notifier-email-extra-ca-unreadable", "tls", True, ["notify"], [("s", "notifier.n2.extra-ca", "@/missing.pem")],
+     "core/internal/notifier/email.go:88-99; core/internal/notifier/helpers.go:133-138", "email notifier extra-ca file cannot be read")
+edit("notifier-null-extra-ca-unreadable", "preserving", False, ["notify"], [("s", "notifier.n3.extra-ca", "@/missing.pem")],
+     "core/internal/notifier/null.go", "the null notifier does not look at extra-ca")
+edit("notifier-null-from-to-absent-url", "preserving", False, ["notify"], [("s", "notifier.n3.url-open", "")],
+     "core/internal/notifier/null.go", "the null notifier needs no url-open")
+edit("consumer-kafka-zkpath-ignored", "preserving", False, ["kafka"], [("s", "consumer.k1.zookeeper-path", "kafka")],
+     "core/internal/consumer/kafka_client.go:90-144", "zookeeper-path is a kafka_zk requirement: a kafka consumer does not look at it")
+edit("consumer-zk-profile-ignored", "preserving", False, ["kafka"], [("s", "consumer.z1.client-profile", "nosuch")],
+     "core/internal/consumer/kafka_zk_client.go:66-117", "a kafka_zk consumer has no client-profile: the key is not looked at")
+edit("consumer-zk-unknown-class-and-cluster", "class-name", True, ["kafka"],
+     [("s", "consumer.z1.class-name", "storm"), ("s", "consumer.z1.cluster", "nosuch")],
+     "core/internal/consumer/coordinator.go:71-72,87-89", "unknown consumer class and unknown cluster on the same module")
 
 EDITS = {e["id"]: e for e in E}
 assert len(EDITS) == len(E)
@@ -524,9 +647,19 @@ def build(base, edit_ids):
     return c
 
 
-def case_line(base, edit_ids):
+CONTEXTS = ("fresh", "preset", "reuse")
+
+
+def case_line(base, edit_ids, ctx="fresh", prelude=None):
+    """ctx: state of the ApplicationContext handed to core.Start; prelude = base whose (unedited, valid) configuration the
+    earlier Start of a re-used context ran with"""
     c = build(base, edit_ids)
-    return " ".join(["cfg", base, "+".join(edit_ids) if edit_ids else "-"] + c.tokens())
+    toks = c.tokens()
+    if ctx == "reuse":
+        toks = ["X:reuse"] + ["P" + t for t in build(prelude or "core", []).tokens()] + toks
+    elif ctx != "fresh":
+        toks = ["X:" + ctx] + toks
+    return " ".join(["cfg", base, "+".join(edit_ids) if edit_ids else "-"] + toks)
 
 
 def parse_head(line):
@@ -534,26 +667,61 @@ def parse_head(line):
     return f[1], ([] if f[2] == "-" else f[2].split("+"))
 
 
-def all_cases(rng, thorough, n_pairs=300, registered=()):
-    """bases, every single edit on every base, pairs (all in the thorough tier, a sample otherwise).
-    registered = known-finding keys present in known_findings.json (gated edits are generated only then)."""
+def parse_ctx(line):
+    for t in line.split()[3:]:
+        if t.startswith("X:"):
+            return t[2:]
+    return "fresh"
+
+
+def config_part(line):
+    """the configuration Start is called with (without context and prelude tokens)"""
+    return " ".join(t for t in line.split()[3:] if not t.startswith(("X:", "P")))
+
+
+def _prelude(rng):
+    # mostly the cheap base; sometimes the one with zookeeper + notifiers; rarely the one whose Start fails at start time
+    # (brokers unreachable: Start returns 1 and leaves ConfigurationValid = true behind)
+    r = rng.random()
+    return "core" if r < 0.7 else ("notify" if r < 0.9 else "kafka")
+
+
+def all_cases(rng, thorough, n_pairs=300):
+    """bases and every single edit on every base; pairs (all in the thorough tier, a sample otherwise).
+    Context states: every base, and every invalidating / context-dependent single edit on a base where its target exists,
+    under all three; validity-preserving and start-time focused singles under fresh + one other; everything else under one
+    state drawn at random (thorough tier: every single under all three)."""
     cases = []
-    ids = [e["id"] for e in E if e["gate"] is None or e["gate"] in registered]
+    ids = [e["id"] for e in E]
+
+    def add(b, es, ctx):
+        cases.append(case_line(b, es, ctx, _prelude(rng) if ctx == "reuse" else None))
+
     for b in BASES:
-        cases.append(case_line(b, []))
+        for ctx in CONTEXTS:
+            add(b, [], ctx)
     for b in BASES:
         for e in ids:
-            cases.append(case_line(b, [e]))
+            focused = b in EDITS[e]["on"]
+            if thorough or (focused and EDITS[e]["inv"] is not False):
+                ctxs = CONTEXTS
+            elif focused:
+                ctxs = ("fresh", rng.choice(CONTEXTS[1:]))
+            else:
+                ctxs = (rng.choice(CONTEXTS),)
+            for ctx in ctxs:
+                add(b, [e], ctx)
     pairs = [(b, x, y) for b in BASES for i, x in enumerate(ids) for y in ids[i + 1:]]
     if not thorough:
         # focused pairs first choice: both edits have their target in the base
         focused = [p for p in pairs if p[0] in EDITS[p[1]]["on"] and p[0] in EDITS[p[2]]["on"]]
-        other = [p for p in pairs if p not in set(focused)]
+        fset = set(focused)
+        other = [p for p in pairs if p not in fset]
         rng.shuffle(focused)
         rng.shuffle(other)
         pairs = focused[: (n_pairs * 3) // 4] + other[: n_pairs - (n_pairs * 3) // 4]
     for b, x, y in pairs:
-        cases.append(case_line(b, [x, y]))
+        add(b, [x, y], rng.choice(CONTEXTS))
     return cases
 
 
